@@ -31,8 +31,8 @@
 
 use std::net::Ipv4Addr;
 
-const TBITS: u32 = 20;
-const IBITS: u32 = 12;
+const TBITS: u32 = 12;
+const IBITS: u32 = 6;
 
 fn base() -> Instant {
     // an arbitrary origin: zero instant + up to ~136 years
